@@ -49,6 +49,11 @@ structure Ctx where
   ov : Overrides
   deriving Repr, Inhabited
 
+/-- the plaintext readable in a leaf -/
+def leafPlain : Leaf → List Nat
+  | .plain m => [m]
+  | _ => []
+
 /-- `filterValue` on one string / []byte value: `settable` is `fv.CanSet()`; `none` = error -/
 def filterStr (c : Ctx) (a : Action) (settable : Bool) (l : Leaf) : Option Leaf :=
   match l with
@@ -86,7 +91,8 @@ def filtIface (c : Ctx) (t : TagInfo) : V → Option V
   | .leaves ls => (filterStrs c t ls).map .leaves           -- slice elements stay settable
   | .slice vs => (filtElems c vs).map .slice
   | .map es => (filtEntries c es).map .map
-  | v => some v
+  | .nilPtr => some .nilPtr
+  | .iface v => some (.iface v)
 /-- `filterField`: every exported field, by kind -/
 def filtFields (c : Ctx) (addr : Bool) : Items → Option Items
   | .nil => some .nil
@@ -95,23 +101,36 @@ def filtFields (c : Ctx) (addr : Bool) : Items → Option Items
     else match filtV c (fromTag tag c.ov) addr v, filtFields c addr rest with
       | some v', some r => some (.cons (.field ex tag) v' r)
       | _, _ => none
-  | .cons h v rest => (filtFields c addr rest).map (.cons h v)     -- not a field: not produced by the generator
-/-- the element loops (Process's, filterField's, filterSliceElements): pointers are followed (nil
-skipped), maps tracked, structs filtered, inner slices walked; anything else is left alone -/
+  | .cons .elem v rest => (filtFields c addr rest).map (.cons .elem v)        -- not a field: not produced by the generator
+  | .cons (.key k) v rest => (filtFields c addr rest).map (.cons (.key k) v)
+/-- the element loops (Process's, filterField's, filterSliceElements) -/
 def filtElems (c : Ctx) : Items → Option Items
   | .nil => some .nil
   | .cons h v rest =>
-    let r := match v with
-      | .ptr (.struct fs) => (filtFields c true fs).map (fun x => V.ptr (.struct x))
-      | .ptr (.map es) => (filtEntries c es).map (fun x => V.ptr (.map x))
-      | .ptr (.slice vs) => (filtElems c vs).map (fun x => V.ptr (.slice x))
-      | .struct fs => (filtFields c true fs).map .struct          -- slice elements are addressable
-      | .map es => (filtEntries c es).map .map
-      | .slice vs => (filtElems c vs).map .slice
-      | v => some v
-    match r, filtElems c rest with
+    match filtElem c v, filtElems c rest with
     | some v', some rs => some (.cons h v' rs)
     | _, _ => none
+/-- one element: pointers are followed (nil skipped), maps tracked, structs filtered (slice elements
+are addressable), inner slices walked; anything else is left alone -/
+def filtElem (c : Ctx) : V → Option V
+  | .ptr w => (filtElemTarget c w).map .ptr
+  | .struct fs => (filtFields c true fs).map .struct
+  | .map es => (filtEntries c es).map .map
+  | .slice vs => (filtElems c vs).map .slice
+  | .leaf l => some (.leaf l)
+  | .leaves ls => some (.leaves ls)
+  | .nilPtr => some .nilPtr
+  | .iface v => some (.iface v)
+/-- what a pointer element points at -/
+def filtElemTarget (c : Ctx) : V → Option V
+  | .struct fs => (filtFields c true fs).map .struct
+  | .map es => (filtEntries c es).map .map
+  | .slice vs => (filtElems c vs).map .slice
+  | .leaf l => some (.leaf l)
+  | .leaves ls => some (.leaves ls)
+  | .nilPtr => some .nilPtr
+  | .ptr v => some (.ptr v)
+  | .iface v => some (.iface v)
 /-- `processUnfiltered` on one untagged map: every value, by kind -/
 def filtEntries (c : Ctx) : Items → Option Items
   | .nil => some .nil
@@ -126,32 +145,82 @@ def filtEntry (c : Ctx) : V → Option V
   | .struct fs => (filtFields c true fs).map .struct                -- addressable copy (fix 2c20777)
   | .map es => (filtEntries c es).map .map
   | .slice vs => (filtMapSlice c vs).map .slice
-  | .ptr (.struct fs) => (filtFields c true fs).map (fun x => V.ptr (.struct x))
-  | .ptr (.leaf l) => (filterStr c (action mapTag) true l).map (fun x => V.ptr (.leaf x))
-  | .ptr (.map es) => (filtEntries c es).map (fun x => V.ptr (.map x))
+  | .ptr w => (filtEntryTarget c w).map .ptr
   | .iface v => (filtEntry c v).map .iface
-  | v => some v
-/-- a slice held in a map: its elements are looked through interface and pointer; structs are
-filtered in place (a struct held by value in an interface element is not addressable) -/
+  | .nilPtr => some .nilPtr
+/-- what a pointer held in a map points at -/
+def filtEntryTarget (c : Ctx) : V → Option V
+  | .struct fs => (filtFields c true fs).map .struct
+  | .leaf l => (filterStr c (action mapTag) true l).map .leaf
+  | .map es => (filtEntries c es).map .map
+  | .leaves ls => some (.leaves ls)
+  | .slice vs => some (.slice vs)
+  | .nilPtr => some .nilPtr
+  | .ptr v => some (.ptr v)
+  | .iface v => some (.iface v)
+/-- a slice held in a map -/
 def filtMapSlice (c : Ctx) : Items → Option Items
   | .nil => some .nil
   | .cons h v rest =>
-    let r := match v with
-      | .struct fs => (filtFields c true fs).map .struct
-      | .ptr (.struct fs) => (filtFields c true fs).map (fun x => V.ptr (.struct x))
-      | .iface (.struct fs) => (filtFields c false fs).map (fun x => V.iface (.struct x))
-      | .iface (.ptr (.struct fs)) => (filtFields c true fs).map (fun x => V.iface (.ptr (.struct x)))
-      | .map es => (filtEntries c es).map .map
-      | .iface (.map es) => (filtEntries c es).map (fun x => V.iface (.map x))
-      | .slice vs => (filtElems c vs).map .slice
-      | v => some v
-    match r, filtMapSlice c rest with
+    match filtMapElem c v, filtMapSlice c rest with
     | some v', some rs => some (.cons h v' rs)
     | _, _ => none
+/-- its elements are looked through interface and pointer; structs are filtered in place (a struct
+held by value in an interface element is not addressable) -/
+def filtMapElem (c : Ctx) : V → Option V
+  | .struct fs => (filtFields c true fs).map .struct
+  | .ptr w => (filtMapElemPtr c w).map .ptr
+  | .iface w => (filtMapElemIface c w).map .iface
+  | .map es => (filtEntries c es).map .map
+  | .slice vs => (filtElems c vs).map .slice
+  | .leaf l => some (.leaf l)
+  | .leaves ls => some (.leaves ls)
+  | .nilPtr => some .nilPtr
+def filtMapElemPtr (c : Ctx) : V → Option V
+  | .struct fs => (filtFields c true fs).map .struct
+  | .leaf l => some (.leaf l)
+  | .leaves ls => some (.leaves ls)
+  | .nilPtr => some .nilPtr
+  | .ptr v => some (.ptr v)
+  | .iface v => some (.iface v)
+  | .slice vs => some (.slice vs)
+  | .map es => some (.map es)
+def filtMapElemIface (c : Ctx) : V → Option V
+  | .struct fs => (filtFields c false fs).map .struct
+  | .ptr w => (filtMapElemPtr c w).map .ptr
+  | .map es => (filtEntries c es).map .map
+  | .leaf l => some (.leaf l)
+  | .leaves ls => some (.leaves ls)
+  | .nilPtr => some .nilPtr
+  | .iface v => some (.iface v)
+  | .slice vs => some (.slice vs)
 end
 
 /-- the tag the payload itself is filtered under when it is a string / []byte / []string: secret -/
 def payloadTag (c : Ctx) : TagInfo := fromTagString sSecret c.ov
+
+/-- what a pointer payload points at (addressable) -/
+def filtPayloadTarget (c : Ctx) : V → Option V
+  | .leaf l => (filterStr c (action (payloadTag c)) true l).map .leaf
+  | .leaves ls => (filterStrs c (payloadTag c) ls).map .leaves
+  | .struct fs => (filtFields c true fs).map .struct
+  | .slice vs => (filtElems c vs).map .slice
+  | .map es => (filtEntries c es).map .map
+  | .nilPtr => some .nilPtr
+  | .ptr v => some (.ptr v)
+  | .iface v => some (.iface v)
+
+/-- the payload (an interface value): a struct BY VALUE has no settable fields (known finding F6c), a
+string by value cannot be redacted at all ("not setable": an error) -/
+def filtPayload (c : Ctx) : V → Option V
+  | .ptr w => (filtPayloadTarget c w).map .ptr
+  | .leaf l => if (leafPlain l).isEmpty then some (.leaf l) else none
+  | .leaves ls => (filterStrs c (payloadTag c) ls).map .leaves
+  | .struct fs => (filtFields c false fs).map .struct
+  | .slice vs => (filtElems c vs).map .slice
+  | .map es => (filtEntries c es).map .map
+  | .nilPtr => some .nilPtr
+  | .iface v => some (.iface v)
 
 inductive Res
   | same                    -- the very same event is forwarded
@@ -159,25 +228,12 @@ inductive Res
   | error
   deriving Inhabited
 
-/-- `Process` on a non-nil, non-zero payload (the payload is an interface value) -/
+/-- `Process` on a non-nil, non-zero payload -/
 def process (c : Ctx) (ewiFails : Bool) (payload : V) : Res :=
   if (effOps c.ov).all (· = .none) then .same
   else if ewiFails then .error
   else if (keyFor c.k c.ek).isNone ∧ (effOps c.ov).any (fun o => o = .encrypt ∨ o = .hmac) then .error
-  else
-    let r : Option V := match payload with
-      | .ptr (.leaf (.plain m)) => (filterStr c (action (payloadTag c)) true (.plain m)).map (fun x => V.ptr (.leaf x))
-      | .leaf (.plain _) => none                                     -- "unable to redact string payload (not setable)"
-      | .leaves ls => (filterStrs c (payloadTag c) ls).map .leaves
-      | .ptr (.leaves ls) => (filterStrs c (payloadTag c) ls).map (fun x => V.ptr (.leaves x))
-      | .ptr (.struct fs) => (filtFields c true fs).map (fun x => V.ptr (.struct x))
-      | .struct fs => (filtFields c false fs).map .struct            -- struct BY VALUE: fields not settable (F6c)
-      | .slice vs => (filtElems c vs).map .slice
-      | .ptr (.slice vs) => (filtElems c vs).map (fun x => V.ptr (.slice x))
-      | .map es => (filtEntries c es).map .map
-      | .ptr (.map es) => (filtEntries c es).map (fun x => V.ptr (.map x))
-      | v => some v
-    match r with
+  else match filtPayload c payload with
     | some v => .filtered v
     | none => .error
 
